@@ -269,7 +269,7 @@ func nonBoolOperandRisk(p *ir.Policy) bool {
 func (b *BatchSpec) variableTie() bool {
 	lens := map[int]int{len(b.Principals): 1}
 	lens[len(b.Resources)]++
-	usedW, usedV := b.Nested, b.InSet
+	usedW, usedV := b.Nested || b.Mixed, b.InSet
 	for _, v := range b.CtxVars {
 		usedW = usedW || v == "w"
 		usedV = usedV || v == "v"
@@ -539,6 +539,7 @@ type BatchSpec struct {
 	V          []ir.Value        `json:"v"`
 	Nested     bool              `json:"nested"` // additionally context.n = {m: var w}
 	InSet      bool              `json:"in_set"` // additionally context.s = [var v, E::"e0"]
+	Mixed      bool              `json:"mixed"`  // additionally context.mix = {v: var w, i: <ignored>, z: 1} and context.mixs = [var w, <ignored>]
 }
 
 // twiceInRecord: some variable occurs in (or below) >= 2 fields of the context record.
@@ -552,6 +553,9 @@ func (b *BatchSpec) twiceInRecord() bool {
 	}
 	if b.InSet {
 		seen["v"]++ // context.s
+	}
+	if b.Mixed {
+		seen["w"] += 2 // context.mix.v, context.mixs
 	}
 	for _, n := range seen {
 		if n >= 2 {
@@ -614,6 +618,12 @@ func runBatch(c *Case, set *cedar.PolicySet, ents types.EntityMap) (string, erro
 	if b.InSet {
 		ctxm["s"] = types.NewSet(batch.Variable("v"), types.NewEntityUID("E", "e0"))
 		used["v"] = true
+	}
+	if b.Mixed {
+		// one composite that holds a variable and an ignored value side by side
+		ctxm["mix"] = types.NewRecord(types.RecordMap{"v": batch.Variable("w"), "i": batch.Ignore(), "z": types.Long(1)})
+		ctxm["mixs"] = types.NewSet(batch.Variable("w"), batch.Ignore())
+		used["w"] = true
 	}
 	if used["w"] {
 		vars["w"] = vals(b.W)
@@ -694,9 +704,10 @@ func genBatchSpec(t *rapid.T, w *gen.World, allowTwice bool) *BatchSpec {
 	}
 	b.Nested = rapid.IntRange(0, 3).Draw(t, "nested") == 0
 	b.InSet = rapid.IntRange(0, 3).Draw(t, "inset") == 0
+	b.Mixed = rapid.IntRange(0, 2).Draw(t, "mixed") == 0
 	if !allowTwice && b.twiceInRecord() {
 		// keep the template outside the known finding's class: the nested / set occurrence would be a second field holding the variable
-		b.Nested, b.InSet = false, false
+		b.Nested, b.InSet, b.Mixed = false, false, false
 	}
 	return b
 }
@@ -714,6 +725,9 @@ func batchPolicies(t *rapid.T, w *gen.World) []Named {
 		cond(true, ir.Bin(ir.OpAnd, ir.Has(ctxVar, "n"), ir.Bin(ir.OpIn, ir.Access(ir.Access(ctxVar, "n"), "m"), lit(ir.Ent("E", "e1"))))),          // nested
 		cond(true, ir.Bin(ir.OpAnd, ir.Has(ctxVar, "s"), ir.Bin(ir.OpContains, ir.Access(ctxVar, "s"), ir.Var("principal")))),                       // set
 		cond(false, ir.Bin(ir.OpAnd, ir.Has(ctxVar, "again"), ir.Bin(ir.OpNe, ir.Access(ctxVar, "again"), ir.Access(ctxVar, "who")))),
+		// a composite holding a variable and an ignored value, consumed whole, beside a conjunct that depends on a variable
+		cond(true, ir.Bin(ir.OpAnd, ir.Has(ctxVar, "mix"), ir.Bin(ir.OpAnd, ir.Bin(ir.OpEq, ir.Access(ctxVar, "mix"), lit(ir.Rec(ir.F("i", ir.Long(1)), ir.F("v", ir.Ent("E", "e1")), ir.F("z", ir.Long(1))))), ir.Bin(ir.OpNe, ir.Var("principal"), ir.Var("resource"))))),
+		cond(true, ir.Bin(ir.OpAnd, ir.Has(ctxVar, "mixs"), ir.Bin(ir.OpOr, ir.Bin(ir.OpContains, ir.Access(ctxVar, "mixs"), lit(ir.Ent("E", "e1"))), ir.Bin(ir.OpEq, ir.Var("principal"), ir.Var("resource"))))),
 	)
 	if !ev.KnownOpen("C14", "batch-variable-order-error-wording") {
 		// non-boolean condition / guard / operand that depends on a variable
@@ -728,7 +742,7 @@ func batchPolicies(t *rapid.T, w *gen.World) []Named {
 	for i := rapid.IntRange(0, 2).Draw(t, "ngen"); i > 0; i-- {
 		ps = append(ps, gen.GenPolicy(t, w, po))
 	}
-	keep := rapid.IntRange(4, len(ps)).Draw(t, "keep")
+	keep := rapid.IntRange(4, min(len(ps), len(idPool))).Draw(t, "keep")
 	order := rapid.Permutation(seq(len(ps))).Draw(t, "porder")[:keep]
 	ids := rapid.Permutation(idPool).Draw(t, "ids")
 	var out []Named
